@@ -27,6 +27,7 @@ type freeIn struct {
 	MaxBytes int    `json:"maxbytes"`
 	ZeroRead int    `json:"zeroread"` // percent of reads with an empty buffer
 	Racers   int    `json:"racers"`   // percent of streams with a goroutine changing deadlines under the reader/writer
+	Closers  int    `json:"closers"`  // percent of streams with a goroutine that half-closes / closes while the writer may be mid-Write
 	Big      int    `json:"big"`      // >0: one stream, one Write of this many bytes (more than a data block and than the window)
 }
 
@@ -43,6 +44,7 @@ func randomFree(rng *rand.Rand, seed int64) freeIn {
 		Cap: []int{0, 0, 16, 256}[rng.Intn(4)], Hb: []int{0, 0, 2}[rng.Intn(3)],
 		MaxBytes: []int{20, 60, 160}[rng.Intn(3)], ZeroRead: []int{0, 10, 25}[rng.Intn(3)]}
 	in.Racers = []int{0, 50, 100}[rng.Intn(3)]
+	in.Closers = []int{0, 30, 60}[rng.Intn(3)]
 	in.Opens[0] = 1 + rng.Intn(4)
 	in.Opens[1] = rng.Intn(4)
 	if in.W <= 3 && in.MaxBytes > 60 {
@@ -205,11 +207,35 @@ func (x *freeRun) racer(e, sid int, st *multiplexing.Stream) {
 	set("setrd", 0)
 }
 
+// closer half-closes or closes the stream from a third goroutine at a random moment,
+// possibly while a Write is in progress and data is in flight in both directions.
+func (x *freeRun) closer(e, sid int, st *multiplexing.Stream) {
+	defer x.wg.Done()
+	rng := x.rngFor(e, sid, 5)
+	time.Sleep(time.Duration(rng.Intn(2500)) * time.Microsecond)
+	op := "cw"
+	if rng.Intn(3) == 0 {
+		op = "close"
+	}
+	x.add(map[string]any{"ev": "Call", "e": e, "op": op, "s": sid, "k": 0, "d": []int{}, "t": nowMs()})
+	var err error
+	if op == "cw" {
+		err = st.CloseWrite()
+	} else {
+		err = st.Close()
+	}
+	x.add(map[string]any{"ev": "Ret", "e": e, "op": op, "s": sid, "sid": 0, "k": 0, "n": 0,
+		"d": []int{}, "err": errKind(err), "t": nowMs()})
+}
+
 func (x *freeRun) serve(e, sid int, st *multiplexing.Stream) {
 	x.wg.Add(2)
 	go x.writer(e, sid, st)
 	go x.reader(e, sid, st)
-
+	if x.in.Big == 0 && x.rngFor(e, sid, 6).Intn(100) < x.in.Closers {
+		x.wg.Add(1)
+		go x.closer(e, sid, st)
+	}
 	if x.rngFor(e, sid, 4).Intn(100) < x.in.Racers {
 		x.wg.Add(1)
 		go x.racer(e, sid, st)
